@@ -436,16 +436,84 @@ func checkProgram(c *runner.Ctx, rules []*sm.Rule, pl []int) {
 	if c.Thorough() {
 		bound = 1
 	}
+	// Where the documentation leaves the expected selection open (e.g. the letter case of regex keys) the model gives
+	// no expectation. One law holds regardless: for a single rule without counting targets, whether a value is selected
+	// and matched does not depend on which other values the request carries. The match data of a two-value request is
+	// the union of the match data of its two one-value requests (engine against engine, no expectation involved).
+	additive := len(rules) == 1 && rules[0].Chain == nil
+	for _, t := range rules[0].Targets {
+		additive = additive && !t.Count
+	}
+	alone := map[string][]string{} // one-value request -> match data of rule 1 on the engine
+	pairKey := func(place string, p sm.Pair) string { return place + "\x00" + p.N + "\x00" + p.V }
+	items := func(q sm.Request) []string {
+		var ks []string
+		for _, p := range q.Get {
+			ks = append(ks, pairKey("get", p))
+		}
+		for _, p := range q.Post {
+			ks = append(ks, pairKey("post", p))
+		}
+		for _, p := range q.Hdr {
+			ks = append(ks, pairKey("hdr", p))
+		}
+		for _, p := range q.Cookie {
+			ks = append(ks, pairKey("cookie", p))
+		}
+		return ks
+	}
+	datasOf := func(o *probe.Outcome) []string {
+		var ds []string
+		for _, m := range o.Matched {
+			ds = append(ds, m.Datas...)
+		}
+		sort.Strings(ds)
+		return ds
+	}
 	genRequests(c.Thorough(), pl, func(q sm.Request) {
 		want, spec := sm.Eval(rules, q)
 		if !spec {
 			c.Count("skipped_unspecified", 1)
+			if !additive {
+				return
+			}
+			its := items(q)
+			if len(its) < 1 || len(its) > 2 {
+				return
+			}
+			o := scen.Run(w, q.Scen(), scen.Options{})
+			c.Count("evaluations", 1)
+			c.Count("additivity_checks", 1)
+			ds := datasOf(o)
+			if len(its) == 1 {
+				alone[its[0]] = ds
+				return
+			}
+			a, okA := alone[its[0]]
+			b, okB := alone[its[1]]
+			if !okA || !okB {
+				return
+			}
+			union := append(append([]string{}, a...), b...)
+			sort.Strings(union)
+			if fmt.Sprint(union) != fmt.Sprint(ds) {
+				c.Violation("selection-of-a-value-depends-on-the-other-values", "configuration:\n"+conf+"request: "+fmt.Sprintf("%+v", q)+fmt.Sprintf("\nmatch data with both values: %q\nmatch data of each value alone: %q and %q", ds, a, b), kase{Rules: rules, Req: q})
+			}
 			return
+		}
+		single := ""
+		if additive {
+			if its := items(q); len(its) == 1 {
+				single = its[0]
+			}
 		}
 		rq := q.Scen()
 		st := mc.Explore(mc.Options{Bound: bound, MaxExecs: 200}, func(cx *mc.Ctx) {
 			o := scen.Run(w, rq, scen.Options{})
 			c.Count("evaluations", 1)
+			if single != "" {
+				alone[single] = datasOf(o)
+			}
 			got := render(o)
 			exp := renderWant(want)
 			if got != exp {
@@ -573,6 +641,35 @@ func replay(raw json.RawMessage) (bool, string) {
 	}
 	defer scen.Close(w)
 	want, spec := sm.Eval(k.Rules, k.Req)
+	if !spec {
+		// no expectation from the model: the additivity law (see checkProgram)
+		datas := func(q sm.Request) []string {
+			var ds []string
+			for _, m := range scen.Run(w, q.Scen(), scen.Options{}).Matched {
+				ds = append(ds, m.Datas...)
+			}
+			sort.Strings(ds)
+			return ds
+		}
+		var union []string
+		parts := 0
+		one := func(q sm.Request) { union = append(union, datas(q)...); parts++ }
+		for _, p := range k.Req.Get {
+			one(sm.Request{Get: []sm.Pair{p}})
+		}
+		for _, p := range k.Req.Post {
+			one(sm.Request{Post: []sm.Pair{p}})
+		}
+		for _, p := range k.Req.Hdr {
+			one(sm.Request{Hdr: []sm.Pair{p}})
+		}
+		for _, p := range k.Req.Cookie {
+			one(sm.Request{Cookie: []sm.Pair{p}})
+		}
+		sort.Strings(union)
+		both := datas(k.Req)
+		return parts == 2 && fmt.Sprint(both) != fmt.Sprint(union), fmt.Sprintf("configuration:\n%srequest: %+v\nmatch data with all values: %q\nunion of the match data of each value alone: %q\n", conf, k.Req, both, union)
+	}
 	var got string
 	mc.Replay(k.Order, func(cx *mc.Ctx) { got = render(scen.Run(w, k.Req.Scen(), scen.Options{})) })
 	exp := renderWant(want)
